@@ -111,7 +111,7 @@ def h_stats(ctx, nbig, stats_cfg, alpha=0.5, skip_low=False, smoothed=False):
     try:
         out = segmetrics.do_segmetrics(cna, sega, loc, spread, interval, alpha, 4 if alpha == 0.5 else 8, smoothed, skip_low)
     except Exception as exc:
-        ctx.claim(False, f"do_segmetrics raised {type(exc).__name__}", info=str(exc)[:200])
+        claim_raised(ctx, "do_segmetrics", exc)
         return
     finally:
         segmetrics.stats = orig_stats
@@ -272,7 +272,7 @@ def h_bintest(ctx, target_only, two_chrom=False):
     try:
         hits = bintest.do_bintest(cna, sega, alpha, target_only)
     except Exception as exc:
-        ctx.claim(False, f"do_bintest raised {type(exc).__name__}", info=str(exc)[:200])
+        claim_raised(ctx, "do_bintest", exc)
         return
     finally:
         bintest.norm = orig
@@ -312,7 +312,7 @@ def h_bivar_outlier(ctx, n, side):
     try:
         out = segmetrics.do_segmetrics(cna, sega, [], ["bivar"], [])
     except Exception as exc:
-        ctx.claim(False, f"do_segmetrics raised {type(exc).__name__}", info=str(exc)[:200])
+        claim_raised(ctx, "do_segmetrics", exc)
         return
     v = col(out, "bivar")[0]
     ctx.observe("bivar", v)
